@@ -9,7 +9,7 @@ import checks.pkt as PK
 
 TRACE = PK.TRACE
 CHECKER = PK.CHECKER + '; generator: Setup_MC.tla with Setup_MC_{sizes,shapes,mutations}.cfg'
-C01_RULES = PK.C01_RULES | {'Locality', 'LocalityCount', 'PacketBitsConsumed', 'SameSpectrumSamePcm'}
+C01_RULES = PK.C01_RULES | {'Locality', 'LocalityCount', 'PacketBitsConsumed', 'SameSpectrumSamePcm', 'FloorPostsAsSpecified', 'FloorCurveAsSpecified'}
 
 def gen_cases(families=('sizes', 'shapes', 'mutations', 'residue')):
     out = {}; stats = dict(states=0, transitions=0, runs={})
@@ -50,7 +50,8 @@ def scn_from_case(rng, fam, i, c, nrand=3):
     ls = [f"snew 0 {bs0} {bs1} {c['ch']}", f"shdr 0 0 {1 if c['idok'] else 0} {toks(c['id'])}", 'scom 0', f"shdr 0 2 {1 if c['ok'] else 0} {toks(c['setup'])}", 'pinit 0']
     k = 0
     for a in c['audio']:
-        ls.append(f"saud 0 {k} {a['W']} -1 0 {'ns ' if a.get('ns') else ''}{toks(a['f'])}"); k += 1
+        probe = (f"fx={','.join(map(str, a['fit']))} yx={','.join(map(str, a['yc']))} " if a.get('fit') else '')
+        ls.append(f"saud 0 {k} {a['W']} -1 0 {'ns ' if a.get('ns') else ''}{probe}{toks(a['f'])}"); k += 1
     for j in range(nrand if fam != 'books' else 1):
         ls.append(f'srand 0 {k} {rng.randrange(1 << 30)} {rng.choice([1, 2, 7, 40, 300])} -1'); k += 1
     if c['audio'] and fam not in ('books', 'residue'):
@@ -107,7 +108,7 @@ def check_c01(pid, tier, seed, replay=None):
     nrej = sum(1 for s in scns for e in res['scn_events'].get(s.name, []) if e.get('e') == 'HeaderIn' and e.get('syn') == 1 and e.get('which') == 2 and e.get('ret') != 0)
     pairs = sorted(set((c['e0'], c['e1']) for c in cases.get('sizes', [])))
     return finish(pid, tier, seed, 'model_checking', scns, res, C01_RULES, t0,
-                  'scenarios = synthetic streams whose identification / setup headers and audio packets are written by TLC from Setup.tla as <<value,bits>> lists: every block-size pair 2^6..2^13 (1 and 2 channels), a family of shapes (residue 0/1/2 with and without stages, ordered / sparse / single-entry / lattice / explicit-value books, floor 0 and floor 1, two submaps with coupling, three modes, 255 channels, floor 1 without partitions) and one-field boundary mutations; codebooks: every length list over 0..3 bits with up to 4 entries (thorough: 0..4 bits, 5 entries) as the book through which floor-1 posts are read, with packets spelling chosen entries codeword by codeword; residue decode: types 0/1/2 x 1-2 channels x coupling x partition sizes with a variable-length classification book, two classes with different cascades and fixed / variable-length value books, floor 1 with class sub-books, packets written by walking the reading order of AudioPacket.tla, each also through a twin set-up that carries the same classes and residue values with one classification word per partition (same spectrum => bit-identical PCM); the real decoder must accept and initialise every set-up the model calls well-formed, deliver exactly the spec\'s count for every packet of every short/long transition, exact silence for silent spectra, and consume exactly the bits of the codewords the model wrote; plus clean decodes of encoder-made streams in full and half rate; non-trivial = the decoder initialised and decoded at least 3 packets; distinct by script hash',
+                  'scenarios = synthetic streams whose identification / setup headers and audio packets are written by TLC from Setup.tla as <<value,bits>> lists: every block-size pair 2^6..2^13 (1 and 2 channels), a family of shapes (residue 0/1/2 with and without stages, ordered / sparse / single-entry / lattice / explicit-value books, floor 0 and floor 1, two submaps with coupling, three modes, 255 channels, floor 1 without partitions) and one-field boundary mutations; codebooks: every length list over 0..3 bits with up to 4 entries (thorough: 0..4 bits, 5 entries) as the book through which floor-1 posts are read, with packets spelling chosen entries codeword by codeword; residue decode: types 0/1/2 x 1-2 channels x coupling x partition sizes with a variable-length classification book, two classes with different cascades and fixed / variable-length value books, floor 1 with class sub-books, packets written by walking the reading order of AudioPacket.tla, each also through a twin set-up that carries the same classes and residue values with one classification word per partition (same spectrum => bit-identical PCM), and with the floor\'s integer domain probed (posts after unwrapping, dB-table index at every bin) against Floor1.tla; the real decoder must accept and initialise every set-up the model calls well-formed, deliver exactly the spec\'s count for every packet of every short/long transition, exact silence for silent spectra, and consume exactly the bits of the codewords the model wrote; plus clean decodes of encoder-made streams in full and half rate; non-trivial = the decoder initialised and decoded at least 3 packets; distinct by script hash',
                   nontrivial,
                   ['claimed: header acceptance of well-formed set-ups, initialisation, per-packet sample counts (every window transition, all 36 size pairs), exact silence; NOT decided: sample values of non-silent spectra (float arithmetic, section 6)',
                    'audio packets are silent-floor packets and pseudo-random bit strings; codeword-level packet synthesis (AudioPacket.tla) is not built', 'TLC, libogg, ASan build of the current tree'],
